@@ -517,6 +517,7 @@ func verifSpecCL(lowered string) primitive.ConsistencyLevel {
 //@   ensures local-one-row: typeis($lastMsg, *message.RowsResult) && typeis(stmt, *parser.SelectStatement) && old(as(stmt, *parser.SelectStatement).Table) == "local" ==> len(rows.Data) == 1 [C10]
 //@   before proxy.Proxy.maybeCreateSession#1 set $useKs = arg2; $useVersion = arg1; $useCompression = arg3
 //@   after proxy.Proxy.maybeCreateSession#1 set $useTried = true; $useOK = (result1 == nil)
+//@   ensures select-answer: typeis(stmt, *parser.SelectStatement) ==> typeis($lastMsg, *message.RowsResult) || typeis($lastMsg, *message.Invalid) [C10]
 //@   ensures use-tries-session: typeis(stmt, *parser.UseStatement) == $useTried
 //@   ensures use-session-key: $useTried ==> $useKs == old(as(stmt, *parser.UseStatement).Keyspace) && $useVersion == old(hdr.Version) && $useCompression == old(c.compression)
 //@   ensures use-success: $useTried && $useOK ==> c.keyspace == old(as(stmt, *parser.UseStatement).Keyspace) && typeis($lastMsg, *message.SetKeyspaceResult) && as($lastMsg, *message.SetKeyspaceResult).Keyspace == old(parser.IdentifierFromString(as(stmt, *parser.UseStatement).Keyspace).ID())
@@ -638,6 +639,7 @@ func verifSpecCL(lowered string) primitive.ConsistencyLevel {
 //@   requires p != nil && p.mu != nil && p.clients != nil
 //@   before proxycore.Conn.Start#1 set $hStarted = true; $hClientOK = clientOK(cl) && cl.proxy == p && cl.codec == codecs.CustomRawCodec
 //@   ensures starts-well-formed-client: $hStarted ==> $hClientOK
+//@   ensures connection-started: $hStarted [C01]
 //@   modifies *
 
 //@ func proxy.client.Receive [C01, C13, C14]
